@@ -301,11 +301,53 @@ def op_items(tier, seed):
         items += sq
     return items
 
+def compress_case(item):
+    '''numeric.compress_indices (COO rows -> CSR row pointers) on a symbolic index vector: accepted iff in range and non-decreasing; result[r] = #{k: idx[k] < r}'''
+    n, length = item
+    out = dict(key=f'compress_indices of {n} symbolic row indices into {length} rows', paths=0, unsat=0, unknown=0, fails=[])
+    def run():
+        idx = SArray.symbolic('k', (n,), 'i')
+        with patched():
+            try: return 'ok', numeric.compress_indices(idx, length), idx
+            except ValueError: return 'rejected', None, idx
+    paths, complete = explore(run, max_paths=400, timeout_ms=10000)
+    out['paths'] = len(paths)
+    for P in paths:
+        if P.tag == 'abort': continue
+        if P.tag != 'ok':
+            out['fails'].append(dict(what=f'{P.tag}: {str(P.value)[:120]}', model=None)); continue
+        kind, r, idx = P.value
+        ks = [x.t for x in idx.a]
+        wf = z3.And(*[z3.And(k >= 0, k < length) for k in ks], *[a <= b for a, b in zip(ks, ks[1:])])
+        if kind == 'rejected': claim = z3.Not(wf)
+        else:
+            r = SArray.wrap(r)
+            if tuple(r.shape) != (length + 1,): out['fails'].append(dict(what=f'result has shape {r.shape}', model=None)); continue
+            claim = z3.And(wf, *[lift(r.a[i]).t == z3.Sum(*[z3.If(k < i, 1, 0) for k in ks]) if ks else lift(r.a[i]).t == 0 for i in range(length + 1)])
+        st, m = solve.holds(claim, pc=P.pc, timeout_ms=10000)
+        if st == 'unsat': out['unsat'] += 1
+        elif st == 'unknown': out['unknown'] += 1
+        else: out['fails'].append(dict(what=('rejected although well formed' if kind == 'rejected' else 'row pointers do not count the entries of each row'), model=[m.eval(k, model_completion=True).as_long() for k in ks]))
+    return out
+
+def replay_compress(item, model):
+    n, length = item
+    idx = numpy.array(model, dtype=int)
+    wf = len(idx) == 0 or (idx.min() >= 0 and idx.max() < length and (numpy.diff(idx) >= 0).all())
+    try: r = numeric.compress_indices(idx, length)
+    except ValueError: return bool(wf), 'rejected'
+    want = numpy.searchsorted(idx, numpy.arange(length + 1))
+    if not wf: return True, f'ill-formed indices {idx.tolist()} accepted: {r.tolist()}'
+    if not numpy.array_equal(r, want): return True, f'compress_indices({idx.tolist()}, {length}) = {numpy.asarray(r).tolist()}, expected {want.tolist()}'
+    return False, 'agree'
+
 def main(argv=None):
     args = harness.parse_args(PID, argv)
     if args.replay:
         import json
         d = json.load(open(args.replay))['replay']
+        if d.get('kind') == 'compress':
+            ok, detail = replay_compress(tuple(d['item']), d['model']); print('REPRODUCED' if ok else 'not reproduced', detail); return 1 if ok else 0
         ok, detail = replay_validation(d['cex']) if d['kind'] == 'validation' else replay_ops(tuple(d['item']), d['fail'])
         print('REPRODUCED' if ok else 'not reproduced', detail); return 1 if ok else 0
     run = harness.Run(PID, 'other', args,
@@ -352,6 +394,17 @@ def main(argv=None):
             ok, detail = replay_ops(item, f)
             if ok: run.violation(f'op:{f["op"]}:{item[0]}x{item[1]}:{item[2]}', f'NumpyMatrix {f["op"]} disagrees with the dense model for pattern {item[2]} ({item[0]}x{item[1]}): {detail}', dict(kind='ops', item=list(item), fail=f))
             else: run.unconfirmed(out['key'], f'{f["op"]}: {f["what"]} did not reproduce ({detail})')
+    if not args.only or args.only == 'compress':
+        citems = [(n, length) for n in (0, 1, 2, 3, 4) for length in (1, 2, 3) if not (n == 4 and length == 1)]
+        for out in harness.pmap(compress_case, citems, args.jobs, chunksize=1):
+            if 'harness_error' in out: run.harness_error(out['harness_error'][:400]); continue
+            item = [it for it in citems if f'compress_indices of {it[0]} symbolic row indices into {it[1]} rows' == out['key']][0]
+            run.case(out['key'], out['unsat'] > 0); run.paths += out['paths']; run.queries['exact_unsat'] += out['unsat']; run.queries['unknown'] += out['unknown']; run.queries['sat'] += len(out['fails'])
+            obligations += out['unsat'] + out['unknown'] + len(out['fails']); discharged += out['unsat']
+            for f in out['fails']:
+                ok, detail = replay_compress(item, f['model']) if f['model'] is not None else (False, f['what'])
+                if ok: run.violation(f'compress:{out["key"]}', f'{out["key"]}: {f["what"]}: {detail}', dict(kind='compress', item=list(item), model=f['model'])); break
+                else: run.unconfirmed(out['key'], f'{f["what"]}: not reproduced ({detail})')
     return run.finish(dict(obligations=obligations, discharged=discharged, rule='case = one validation size or one (shape, pattern, operand pattern, dtype) over all operations; nontrivial = at least one non-syntactic solver query'))
 
 def _ops_worker(i_item):
